@@ -460,6 +460,13 @@ func main() {
 		fld(1, "S", i32, idl.ReqDefault), fld(2, "M", idl.StructT(mid), idl.ReqDefault), fld(3, "Lm", idl.ListOf(idl.StructT(mid)), idl.ReqDefault),
 		fld(5, "Rs", str, idl.ReqRequired), fld(64, "Hi", i32, idl.ReqDefault), fld(65, "Hl", idl.StructT(leaf), idl.ReqOptional), fld(-1, "Neg", i32, idl.ReqDefault)}}
 	file.Add(root)
+	// maps keyed by an enum / i64 / i16, and field ids at the boundary of the mask's id table (62, 63, 64)
+	en := &idl.Enum{Name: "Ke", Values: []*idl.EnumValue{{Name: "A", Value: 1, Explicit: true}, {Name: "B", Value: 2, Explicit: true}, {Name: "C", Value: 9, Explicit: true}}}
+	file.Add(en)
+	ext := &idl.Struct{Cat: "struct", Name: "Ext", Fields: []*idl.Field{
+		fld(1, "Em", idl.MapOf(idl.EnumT(en), idl.StructT(leaf)), idl.ReqDefault), fld(2, "Ei", idl.MapOf(idl.EnumT(en), i32), idl.ReqDefault), fld(3, "Lm", idl.MapOf(idl.T(idl.I64), idl.StructT(leaf)), idl.ReqOptional),
+		fld(4, "Hm", idl.MapOf(idl.T(idl.I16), str), idl.ReqDefault), fld(62, "F62", i32, idl.ReqDefault), fld(63, "F63", idl.StructT(leaf), idl.ReqDefault), fld(64, "F64", idl.ListOf(idl.StructT(leaf)), idl.ReqDefault)}}
+	file.Add(ext)
 	prog := &idl.Program{Files: []*idl.File{file}}
 
 	configs := [][]string{{"with_field_mask", "with_reflection"}, {"with_field_mask", "with_reflection", "field_mask_zero_required"}, {"with_field_mask", "with_reflection", "field_mask_halfway"}}
@@ -527,7 +534,17 @@ func main() {
 		}
 		return refsem.Obj().Set(1, refsem.Int(1)).Set(2, midVal(n)).Set(3, lm).Set(5, refsem.Str("rs")).Set(64, refsem.Int(64)).Set(65, lf(65, "hl", 66)).Set(-1, refsem.Int(-1))
 	}
-	rootsT := []*rootT{{mid, midVals, 3}, {root, []*refsem.Val{rootVal(3), rootVal(1)}, 2}}
+	extVal := func(n int) *refsem.Val {
+		em, ei, lm, hm := refsem.Map(), refsem.Map(), refsem.Map(), refsem.Map()
+		for i, k := range []int64{1, 2, 9}[:n] {
+			em.M = append(em.M, [2]*refsem.Val{refsem.Int(k), lf(int64(30+i), "e", int64(40+i))})
+			ei.M = append(ei.M, [2]*refsem.Val{refsem.Int(k), refsem.Int(int64(50 + i))})
+			lm.M = append(lm.M, [2]*refsem.Val{refsem.Int(k), lf(int64(60+i), "", int64(70+i))})
+			hm.M = append(hm.M, [2]*refsem.Val{refsem.Int(k), refsem.Str(fmt.Sprintf("h%d", i))})
+		}
+		return refsem.Obj().Set(1, em).Set(2, ei).Set(3, lm).Set(4, hm).Set(62, refsem.Int(62)).Set(63, lf(63, "f63", 630)).Set(64, leaves(n))
+	}
+	rootsT := []*rootT{{mid, midVals, 3}, {root, []*refsem.Val{rootVal(3), rootVal(1)}, 2}, {ext, []*refsem.Val{extVal(3), extVal(1)}, 3}}
 	if !thorough {
 		rootsT[0].vals = []*refsem.Val{midVals[4], midVals[1], midVals[3]}
 	}
